@@ -4,17 +4,30 @@ CFG = {
     "props_module": "RpmVerif.Props.C13",
     "required_theorems": ["RpmVerif.C13.rust_eq_c", "RpmVerif.C13.rustCmp_swap", "RpmVerif.C13.rustCmp_trans",
                           "RpmVerif.C13.evr_cmp_spec", "RpmVerif.C13.evr_eq_cmp_eq", "RpmVerif.C13.nevra_eq_cmp_eq",
-                          "RpmVerif.C13.vectors_ok", "RpmVerif.C13.chars_vs_bytes"],
+                          "RpmVerif.C13.vectors_ok", "RpmVerif.C13.chars_vs_bytes",
+                          "RpmVerif.C13.libsolv_vectors_ok", "RpmVerif.C13.libsolv_evr_vectors_ok",
+                          "RpmVerif.C13.evr_partial_cmp", "RpmVerif.C13.nevra_partial_cmp", "RpmVerif.C13.evr_ops", "RpmVerif.C13.nevra_ops",
+                          "RpmVerif.C13.evr_max_spec", "RpmVerif.C13.nevra_max_spec", "RpmVerif.C13.rpmEvrCompare_spec", "RpmVerif.C13.evrText_iff",
+                          "RpmVerif.C13.epoch_numeric", "RpmVerif.C13.evr_cmp_numeric_epoch"],
     "trivial_branches": ["identical"],
-    "rule": "exhaustive ordered pairs of all strings up to length 3 over the alphabet {0,1,a,B,'.','~','^','é'} (quick) / "
-            "{0,1,9,a,B,'.','-','_','~','^','é'} (thorough), plus seeded long strings biased to shared prefixes, and EVR / NEVRA / "
-            "rpm_evr_compare products; a case is non-trivial when the two strings are not identical; distinct = distinct request lines",
+    "rule": "exhaustive ordered pairs of all strings up to length 3 over the alphabet {0,1,9,a,B,'.','-','_','~','^','é'} and of all strings up to "
+            "length 2 over that alphabet widened by U+0663, U+00B2, U+FF11, U+FF21, U+20AC, U+1D11E, U+0301 and the ASCII neighbours / : @ [ ` { of the "
+            "digit and letter ranges (both tiers), every vendored oracle pair (rpm's tests/rpmvercmp.at, libsolv's answers), plus seeded long strings "
+            "biased to shared prefixes, and EVR / NEVRA / rpm_evr_compare products, where cmp, ==, partial_cmp, <, <=, >, >=, max and min are all observed; "
+            "a case is non-trivial when the two strings are not identical; distinct = distinct request lines",
     "exhaustive": True,
     "shards": {"quick": 4, "thorough": 16},
-    "trusted_base": ["transcription of rpm's rpmvercmp.c as `cVercmp` (checked only against the test vectors scraped from src/version.rs)"],
-    "assumptions": COMMON_ASSUME + ["rpmvercmp.c transcription is faithful (no rpm binary in the sandbox)"],
+    "trusted_base": ["transcription of rpm's rpmvercmp.c as `cVercmp`: checked against oracle tables vendored in /verif/tools/gen/data (NOT taken from /repo): "
+                     "the 103 cases of rpm's tests/rpmvercmp.at (written down from upstream, not downloaded: no network) and 1030 + 260 pairs answered by "
+                     "libsolv 0.7.30 (solv_vercmp_rpm / pool_evrcmp_str), an implementation independent of rpm-rs and of the transcription"],
+    "assumptions": COMMON_ASSUME + ["rpmvercmp.c transcription is faithful (no rpm binary in the sandbox; libsolv's rpm comparison stands in for it)",
+                                    "<, <=, >, >= are core::cmp::PartialOrd's provided methods over partial_cmp and max / min core::cmp::Ord's provided "
+                                    "methods (`if other < self`): modelled in Model/Vercmp.lean, exercised on every EVR / NEVRA case"],
     "level_text": "Theorems for all strings of any length: compare_version_string = rpmvercmp (rust_eq_c), reflexive / swap-antisymmetric / transitive, "
-                  "Evr and Nevra orders are the lexicographic products (epoch '' = '0'), equal values compare Equal. The model is tied to the code by an exhaustive "
+                  "Evr and Nevra orders are the lexicographic products (epoch '' = '0'; for all-digit epochs the epoch stage is the comparison of the NUMBERS, "
+                  "epoch_numeric), equal values compare Equal; partial_cmp is total and is that order, "
+                  "<, <=, >, >= say what cmp says, max / min return a bound among their arguments; rpm_evr_compare reads each text as epoch (before the first ':'), "
+                  "version (to the first '-'), release and compares those. The model is tied to the code by an exhaustive "
                   "small-alphabet differential run plus seeded long strings.",
-    "level_note": "Trusted: Lean kernel; my transcription of rpmvercmp.c (checked against the 106 vectors scraped from src/version.rs); fidelity of the hand model as exercised by the correspondence.",
+    "level_note": "Trusted: Lean kernel; my transcription of rpmvercmp.c (checked against the vendored rpmvercmp.at cases and libsolv's answers, tools/gen/data); fidelity of the hand model as exercised by the correspondence.",
 }
